@@ -501,9 +501,13 @@ package mapping
 //@ func doParseKeyAndOptions
 //@   prop C05
 //@   opaque parseSegments, parseOption
+// never panics: every index / slice expression below is proved in bounds for whatever parseSegments returns
+//@   safety bounds
+//@   replay mapping_doParseKeyAndOptions
 //@   let segs = ret(parseSegments)
 //@   ensures [segments-of-the-tag] calls(parseSegments) == 1 && arg(parseSegments, 0) == value
 //@   ensures [key-is-the-first-segment] result2 == nil && len(segs) >= 1 ==> result0 == ret(strings.TrimSpace, 0, 1) && arg(strings.TrimSpace, 0, 1) == segs[0]
+//@   ensures [blank-tag-has-no-key-and-no-options] len(segs) == 0 ==> result0 == "" && result1 == nil && result2 == nil && calls(parseOption) == 0
 //@   ensures [key-only] len(segs) == 1 ==> result1 == nil && result2 == nil && calls(parseOption) == 0
 //@   loop 1 invariant len(segments) > 1 && segments == segs && len(options) == len(segments) - 1 && 0 <= rangeindex + 1 && rangeindex + 1 <= len(options) && calls(parseOption) == rangeindex + 1
 //@   loop 1 iteration-ensures [option-parsed-in-order] calls(parseOption) == 1 && ret(parseOption) == nil && arg(parseOption, 1) == field.Name && arg(parseOption, 2) == ret(strings.TrimSpace) && arg(strings.TrimSpace, 0) == options[rangeindex]
